@@ -836,6 +836,8 @@ func ghostSort(g *GhostDef) (string, int) {
 	switch g.Res {
 	case "reals":
 		return "(Array Int Real)", 1
+	case "strs":
+		return "(Array Int Str)", 1
 	case "int":
 		return "Int", 1
 	case "bool":
